@@ -76,6 +76,20 @@ type SpecFn struct {
 	Src    string
 }
 
+type GuardDecl struct {
+	Type   string
+	Mutex  string
+	Fields []string
+	Props  []string
+}
+
+func canonTypeName(n, pkg string) string {
+	if strings.Contains(n, ".") || pkg == "" {
+		return n
+	}
+	return pkg + "." + n
+}
+
 type PredDef struct {
 	Name   string
 	Params [][2]string // name, optional Go type name (for field access)
@@ -101,6 +115,7 @@ type Contracts struct {
 	SpecOrd  []string
 	Ghosts   map[string]*GhostVar
 	Preds    map[string]*PredDef
+	Guards   []*GuardDecl
 	GhostOrd []string
 	Axioms   []*Axiom
 	Lemmas   []*Clause
@@ -166,7 +181,7 @@ func (c *Contracts) LoadContractFile(path, pkgPrefix string, trusted bool) error
 	}
 	// merge continuation lines: a line whose first token is not a keyword continues the previous one
 	keywords := map[string]bool{"func": true, "functype": true, "requires": true, "ensures": true, "proves": true, "let": true, "modifies": true,
-		"pure": true, "loop": true, "at": true, "spec": true, "ghost": true, "axiom": true, "lemma": true, "regex": true, "pred": true, "smt": true,
+		"pure": true, "loop": true, "at": true, "spec": true, "ghost": true, "axiom": true, "lemma": true, "regex": true, "pred": true, "type": true, "smt": true,
 		"inline": true, "implements": true, "signature": true, "trusted": true, "nosafety": true, "opaque": true, "params": true, "results": true}
 	var merged []line
 	for _, l := range lines {
@@ -322,6 +337,22 @@ func (c *Contracts) LoadContractFile(path, pkgPrefix string, trusted bool) error
 			}
 			c.Specs[sf.Name] = sf
 			c.SpecOrd = append(c.SpecOrd, sf.Name)
+			cur = nil
+		case kw == "type":
+			// type T guarded_by mu : f1, f2 [props C10 C11]
+			f := strings.Fields(strings.ReplaceAll(strings.ReplaceAll(rest, ",", " "), ":", " "))
+			if len(f) < 4 || f[1] != "guarded_by" {
+				return fmt.Errorf("%s:%d: expected 'type T guarded_by mu : fields'", path, l.no)
+			}
+			gd := &GuardDecl{Type: canonTypeName(f[0], strings.TrimSuffix(pkgPrefix, ".")), Mutex: f[2]}
+			for _, x := range f[3:] {
+				if regexp.MustCompile(`^C[0-9]{2,3}$`).MatchString(x) {
+					gd.Props = append(gd.Props, x)
+				} else if x != "props" {
+					gd.Fields = append(gd.Fields, x)
+				}
+			}
+			c.Guards = append(c.Guards, gd)
 			cur = nil
 		case kw == "pred":
 			// pred name(p1, p2) = expr   — state-dependent macro, expanded at each use
